@@ -275,6 +275,8 @@ fn parse_post_operators(
 
                 // collect arguments
                 loop {
+                    let iteration_start = p.token_idx;
+
                     if p.at(TokenKind::RParen) {
                         break;
                     }
@@ -288,6 +290,11 @@ fn parse_post_operators(
 
                     if !p.at(TokenKind::RParen) {
                         p.expect_with_no_skip(TokenKind::Comma);
+                    }
+
+                    // an iteration which consumed nothing would repeat forever
+                    if p.token_idx == iteration_start {
+                        break;
                     }
                 }
 
@@ -649,6 +656,8 @@ fn parse_lambda(p: &mut Parser, recovery_set: TokenSet) -> CompletedMarker {
         TokenSet::new([TokenKind::Comma, TokenKind::RParen, TokenKind::Ellipsis]);
 
     loop {
+        let iteration_start = p.token_idx;
+
         if p.at(TokenKind::RParen) {
             break;
         }
@@ -680,6 +689,11 @@ fn parse_lambda(p: &mut Parser, recovery_set: TokenSet) -> CompletedMarker {
 
         if !p.at(TokenKind::RParen) {
             p.expect_with_no_skip(TokenKind::Comma);
+        }
+
+        // an iteration which consumed nothing would repeat forever
+        if p.token_idx == iteration_start {
+            break;
         }
     }
     p.expect_with_recovery_set(
@@ -790,6 +804,8 @@ fn parse_struct_decl(p: &mut Parser, recovery_set: TokenSet) -> CompletedMarker 
     }
 
     loop {
+        let iteration_start = p.token_idx;
+
         if p.at(TokenKind::RBrace) {
             break;
         }
@@ -814,6 +830,11 @@ fn parse_struct_decl(p: &mut Parser, recovery_set: TokenSet) -> CompletedMarker 
 
         if !p.at(TokenKind::RBrace) {
             p.expect_with_no_skip(TokenKind::Comma);
+        }
+
+        // an iteration which consumed nothing would repeat forever
+        if p.token_idx == iteration_start {
+            break;
         }
     }
     p.expect(TokenKind::RBrace);
@@ -848,6 +869,8 @@ fn parse_struct_literal(
     p.bump();
 
     loop {
+        let iteration_start = p.token_idx;
+
         if p.at(TokenKind::RBrace) {
             break;
         }
@@ -877,6 +900,11 @@ fn parse_struct_literal(
         if !p.at(TokenKind::RBrace) {
             p.expect_with_no_skip(TokenKind::Comma);
         }
+
+        // an iteration which consumed nothing would repeat forever
+        if p.token_idx == iteration_start {
+            break;
+        }
     }
     p.expect_with_recovery_set(TokenKind::RBrace, recovery_set);
 
@@ -900,6 +928,8 @@ fn parse_enum_decl(p: &mut Parser, recovery_set: TokenSet) -> CompletedMarker {
     }
 
     loop {
+        let iteration_start = p.token_idx;
+
         if p.at(TokenKind::RBrace) {
             break;
         }
@@ -935,6 +965,11 @@ fn parse_enum_decl(p: &mut Parser, recovery_set: TokenSet) -> CompletedMarker {
 
         if !p.at(TokenKind::RBrace) {
             p.expect_with_no_skip(TokenKind::Comma);
+        }
+
+        // an iteration which consumed nothing would repeat forever
+        if p.token_idx == iteration_start {
+            break;
         }
     }
     p.expect(TokenKind::RBrace);
@@ -981,6 +1016,8 @@ fn parse_array_literal(
     p.expect_with_recovery_set_no_default(TokenKind::LBrack, DEFAULT_NO_BRACES);
 
     loop {
+        let iteration_start = p.token_idx;
+
         if p.at(TokenKind::RBrack) || p.at(TokenKind::RBrace) {
             break;
         }
@@ -995,6 +1032,11 @@ fn parse_array_literal(
 
         if !p.at(TokenKind::RBrack) && !p.at(TokenKind::RBrace) {
             p.expect_with_no_skip(TokenKind::Comma);
+        }
+
+        // an iteration which consumed nothing would repeat forever
+        if p.token_idx == iteration_start {
+            break;
         }
     }
     p.expect_with_recovery_set_no_default(TokenKind::RBrack, DEFAULT_NO_BRACES);
@@ -1153,6 +1195,8 @@ fn parse_switch(p: &mut Parser, recovery_set: TokenSet) -> CompletedMarker {
         p.bump();
 
         loop {
+            let iteration_start = p.token_idx;
+
             if p.at(TokenKind::RBrace) {
                 break;
             }
@@ -1193,6 +1237,11 @@ fn parse_switch(p: &mut Parser, recovery_set: TokenSet) -> CompletedMarker {
             // attach themselves to the last block as paths
             if !p.at(TokenKind::RBrace) || p.at(TokenKind::Comma) {
                 p.expect_with_no_skip(TokenKind::Comma);
+            }
+
+            // an iteration which consumed nothing would repeat forever
+            if p.token_idx == iteration_start {
+                break;
             }
         }
 
@@ -1253,6 +1302,8 @@ fn parse_directive(p: &mut Parser) -> CompletedMarker {
 
     // collect arguments
     loop {
+        let iteration_start = p.token_idx;
+
         if p.at(TokenKind::RParen) {
             break;
         }
@@ -1266,6 +1317,11 @@ fn parse_directive(p: &mut Parser) -> CompletedMarker {
 
         if !p.at(TokenKind::RParen) {
             p.expect_with_no_skip(TokenKind::Comma);
+        }
+
+        // an iteration which consumed nothing would repeat forever
+        if p.token_idx == iteration_start {
+            break;
         }
     }
 
